@@ -30,6 +30,7 @@ import zope.testrunner.statistics as ZST  # noqa: E402
 
 CHILD_SCRIPT = os.path.join(boot.VERIF, 'vsim', 'child_boot.py')
 STEP_CAP = 400000
+ANSI_RE = re.compile(r'\x1b\[[0-9;]*m')
 
 
 class HarnessError(Exception):
@@ -977,7 +978,18 @@ def execute(spec, options, sched_mode=None, knobs=None, defaults=None, label='ma
     old = sys.stdout, sys.stderr, sys.stdin
     sys.stdout, sys.stderr = out, err
     RecordingRunner.instances[:] = []
+    if defaults is None and knobs.get('defaults_split') is not None:
+        from . import world as _W
+        defaults, options = _W.split_defaults(list(options),
+                                              random.Random(knobs['defaults_split']))
+        defaults = defaults or None
     args = [CHILD_SCRIPT] + list(options)
+    for a in list(defaults or []):
+        if a.startswith('-j'):
+            try:
+                env.processes = int(a[2:])
+            except ValueError:
+                pass
     for a in args:
         if a.startswith('-j'):
             try:
@@ -987,6 +999,7 @@ def execute(spec, options, sched_mode=None, knobs=None, defaults=None, label='ma
     res = Result()
     res.label = label
     res.options = list(options)
+    res.all_options = list(defaults or []) + list(options)
     res.raised = None
     res.verdict = None
     res.hang = None
@@ -1020,7 +1033,7 @@ def execute(spec, options, sched_mode=None, knobs=None, defaults=None, label='ma
     if res.raised and res.raised[0] == 'HarnessError':
         raise HarnessError(res.raised[1] + res.raised[2])
     res.out = log
-    res.text = ''.join(t for _, t in log)
+    res.text = ANSI_RE.sub('', ''.join(t for _, t in log))
     res.trace = rt.trace
     res.runner = runner_truth(RecordingRunner.instances[-1]) \
         if RecordingRunner.instances else None
@@ -1046,10 +1059,13 @@ def digest_of(res, norm=None):
     h.update(repr(res.verdict).encode())
     h.update(repr(res.raised[:2] if res.raised else None).encode())
     h.update(json.dumps(res.trace).encode())
-    out = json.dumps(res.out)
-    if norm is not None:
-        out = norm(out)
-    h.update(out.encode())
+    if '--gc-after-test' not in getattr(res, 'all_options', res.options):
+        # (with --gc-after-test the runner prints how many objects each collection found: a
+        # property of the interpreter's heap, not of the simulated execution)
+        out = json.dumps(res.out)
+        if norm is not None:
+            out = norm(out)
+        h.update(out.encode())
     h.update(repr(res.sched['log']).encode())
     h.update(repr(res.sched['choices']).encode())
     return h.hexdigest()[:20]
